@@ -27,7 +27,8 @@ TEMPLATE = '[Trash Info]\nPath=%s\nDeletionDate=%s\n'
 
 # rules of sibling properties that are necessary conditions of this one too
 # (evaluated by the sibling module on the same graphs, reported under this property)
-ALSO = {'C01': {'R01.3': 'the reservation is released only when the payload did not move (also at a '
+ALSO = {'C01': {'R01.8': 'a name is reserved only while files/<name> is free: otherwise the arriving payload is written through or into what lies there and the entry is complete in neither place',
+         'R01.3': 'the reservation is released only when the payload did not move (also at a '
                   'kill between the two)',
          'R01.6': 'closed effect set: every crash point lies between these effects',
          'R01.7': 'copy+delete (whose failure leaves the entry partly in each place) is '
